@@ -690,11 +690,53 @@ fn walk_levels(root: &Chunk, store: &HashMap<XorName, Bytes>) -> Vec<Value> {
     out
 }
 
+/// Self-referential content: what is stored is itself (derived from) the data map of an earlier upload U
+/// -- e.g. a backup copy of a private data map.  Returns the content and U's chunks, which stay available
+/// in the in-memory network during the read.
+fn selfref_content(case: &Value) -> (Vec<u8>, Vec<Chunk>) {
+    let inner = &case["inner"];
+    let (u_root, u_chunks) = autonomi::self_encryption::encrypt(Bytes::from(fill(inner))).expect("inner upload");
+    let level: DataMapLevel = rmp_serde::from_slice(u_root.value()).expect("inner data map");
+    let map = match &level { DataMapLevel::First(m) | DataMapLevel::Additional(m) => m.clone() };
+    let ser_chunk = |v: Vec<u8>| rmp_serde::to_vec(&Chunk::new(Bytes::from(v))).unwrap();
+    let mut content = match case["selfref"].as_str().unwrap() {
+        // the value of the chunk encrypt() returned as U's data map
+        "map_value" => u_root.value().to_vec(),
+        // ... and its rmp serialisation as a Chunk (what pack_data_map self-encrypts for an upper level)
+        "map_chunk_ser" => ser_chunk(u_root.value().to_vec()),
+        "first_wrap" => rmp_serde::to_vec(&DataMapLevel::First(map)).unwrap(),
+        "additional_wrap" => rmp_serde::to_vec(&DataMapLevel::Additional(map)).unwrap(),
+        "first_wrap_ser" => ser_chunk(rmp_serde::to_vec(&DataMapLevel::First(map)).unwrap()),
+        "additional_wrap_ser" => ser_chunk(rmp_serde::to_vec(&DataMapLevel::Additional(map)).unwrap()),
+        // a chunk of U itself, serialised
+        "content_chunk_ser" => ser_chunk(u_chunks[0].value().to_vec()),
+        other => panic!("selfref {other}"),
+    };
+    if let Some(n) = case["cut"]["prefix"].as_u64() {
+        content.truncate((n as usize).min(content.len()).max(3));
+    }
+    if let Some(n) = case["cut"]["suffix"].as_u64() {
+        let k = content.len().saturating_sub((n as usize).max(3));
+        content = content[k..].to_vec();
+    }
+    if let Some(h) = case["cut"]["append"].as_str() {
+        content.extend(hex::decode(h).unwrap());
+    }
+    let mut all = u_chunks;
+    all.push(u_root);
+    (content, all)
+}
+
 fn op_data(rt: &tokio::runtime::Runtime, case: &Value) -> Value {
-    let data = Bytes::from(fill(case));
+    let (content, other_upload) = if case.get("selfref").is_some() {
+        selfref_content(case)
+    } else {
+        (fill(case), vec![])
+    };
+    let data = Bytes::from(content);
     let (root, chunks) = match autonomi::self_encryption::encrypt(data.clone()) {
         Ok(x) => x,
-        Err(e) => return json!({"enc": "err", "msg": format!("{e}")}),
+        Err(e) => return json!({"enc": "err", "msg": format!("{e}"), "data_len": data.len()}),
     };
     // determinism: a second run must give the same data map and the same chunk addresses
     let det = match autonomi::self_encryption::encrypt(data.clone()) {
@@ -719,6 +761,10 @@ fn op_data(rt: &tokio::runtime::Runtime, case: &Value) -> Value {
         chunk_out.push(o);
     }
     let levels = walk_levels(&root, &store);
+    // the earlier upload's chunks are on the network too
+    for c in other_upload.iter() {
+        let _ = store.entry(*c.name()).or_insert_with(|| c.value().clone());
+    }
     // tampering (C15): replace what the network returns for some addresses
     let mut tamper: HashMap<XorName, Script> = HashMap::new();
     if let Some(ts) = case.get("tamper").and_then(|t| t.as_array()) {
@@ -790,7 +836,7 @@ fn op_data(rt: &tokio::runtime::Runtime, case: &Value) -> Value {
         Ok(b) => json!({"res": "ok", "eq": b == data, "len": b.len()}),
         Err(e) => json!({"res": "err", "code": get_err_code(&e)}),
     };
-    json!({"enc": "ok", "det": det, "root": hex::encode(root.name().0), "root_len": root.value().len(),
+    json!({"enc": "ok", "det": det, "data_len": data.len(), "root": hex::encode(root.name().0), "root_len": root.value().len(),
            "n_chunks": chunks.len(), "chunks": chunk_out, "levels": levels, "get": get,
            "requests": log.len(), "max_chunk_size": *self_encryption::MAX_CHUNK_SIZE,
            "min_encryptable": self_encryption::MIN_ENCRYPTABLE_BYTES})
